@@ -257,8 +257,9 @@ bool qlisttbl_put(qlisttbl_t *tbl, const char *name, const void *data, size_t si
     // lock table
     qlisttbl_lock(tbl);
 
-    // if unique flag is set, remove same key
-    if (tbl->unique == true) qlisttbl_remove(tbl, name);
+    // if unique flag is set, remove same key. use our own copy of the name,
+    // the caller's name may be the name of the very element we remove here.
+    if (tbl->unique == true) qlisttbl_remove(tbl, obj->name);
 
     // insert into table
     if (tbl->num == 0) {
